@@ -201,6 +201,8 @@ impl Prop for C10 {
         let mut ops = Vec::new();
         let mut live: Vec<u32> = Vec::new();
         let mut dead: Vec<u32> = Vec::new();
+        // declared parameter count of each live id (long data is only sent to parameters that exist)
+        let mut np_of: HashMap<u32, usize> = HashMap::new();
         let invalid_at = if g.chance(1, 2) { Some(g.usize_in(0, n)) } else { None };
         for i in 0..n {
             if Some(i) == invalid_at {
@@ -225,6 +227,7 @@ impl Prop for C10 {
                         // sometimes re-prepare a live id
                         let id = if !live.is_empty() && g.chance(1, 4) { *g.pick(&live) } else { gen_id(g) };
                         let np = g.usize_in(0, 3);
+                        np_of.insert(id, np);
                         ops.push(LOp::Prepare { reply: Some((id, np)) });
                         if !live.contains(&id) {
                             live.push(id);
@@ -239,7 +242,12 @@ impl Prop for C10 {
                 2 if !live.is_empty() => {
                     let id = *g.pick(&live);
                     let n = g.usize_in(0, 12);
-                    ops.push(LOp::LongData { id, param: g.below(3) as u16, data: g.bytes(n) });
+                    let np = np_of.get(&id).copied().unwrap_or(0);
+                    if np > 0 {
+                        ops.push(LOp::LongData { id, param: g.below(np as u64) as u16, data: g.bytes(n) });
+                    } else {
+                        ops.push(LOp::Ping);
+                    }
                 }
                 3 => {
                     if !live.is_empty() && g.chance(3, 4) {
